@@ -229,7 +229,7 @@ var CfgC08 = reg(&MachineCfg{
 var CfgC15 = reg(&MachineCfg{
 	Prop: "C15", Also: agreement,
 	Gens: []interface{}{"aol", 32, "did", 20, "pnft", 24, "mixed", 10, "commit", 8, "burn", 4, "bank", 2, "gov", 2},
-	Bias: map[string]int{"right-signers": 85, "exec": 0, "multi": 35, "fee-payer": 50, "right-proof": 80, "tamper": 6, "group": 8},
+	Bias: map[string]int{"right-signers": 85, "exec": 0, "multi": 35, "fee-payer": 50, "right-proof": 80, "tamper": 6, "group": 8, "tip": 10},
 	Rule: "transactions of 1-4 custom-module messages (any mix, succeeding or failing at any position), fees in {0, small, two denoms, more than the balance}, explicit fee payers, add-record with/without a named fee payer; oracle = per-DeliverTx balance/supply diff and all-or-nothing on the three custom stores; non-trivial = a multi-message tx that failed after the ante, or an add-record with a named fee payer",
 	NonTrivial: func(w *world.World) bool {
 		return lab(w, "c15 multi-message tx failed after ante")+lab(w, "c15 add-record with named fee payer") > 0
